@@ -21,6 +21,7 @@ def c01(ctx):
     units_rule(ctx, "C01.R2")
     progress_rules(ctx)
     dispatch_char_rule(ctx, "C01.R5")
+    lexer_iterative_rule(ctx, "C01.R6")
 
 
 def progress_rules(ctx):
@@ -99,3 +100,46 @@ def dispatch_char_rule(ctx, rule):
     rep.ob(rule, "dispatch-on-the-character-at-the-offset", ok,
            "" if ok else "find_word_start builds an (offset, character) pair whose character is not the one drawn together with the offset: the lexer dispatches on a character that is not the one in the text",
            (bad[0].loc(bad[1].get("line")) if bad else fw.loc()), how="%d rebuilt pairs, all component-wise copies" % n)
+
+
+def lexer_iterative_rule(ctx, rule):
+    """the lexer does not recurse: its stack use does not grow with the length of the input"""
+    from ..core import callee_def
+    F, rep = ctx.F, ctx.rep
+    rep.rule(rule, "the lexer is iterative: the call graph among the functions of lexer.rs (closures folded into their function, trait "
+             "methods resolved to the local impl) has no cycle -- skipping n comments, blanks or ignorable characters takes a loop, not n "
+             "stack frames, so a long run of them (which involves no nesting) cannot exhaust the stack")
+    fns = {fn.path: fn for fn in F.all_fns(tests=False) if fn.file.endswith("frontend/lexer.rs") and fn.kind != "closure"}
+    graph = {}
+    for path, fn in fns.items():
+        cs = set()
+        for b in F.with_closures(fn):
+            for bi, t in b.calls():
+                for d in (t["callee"].get("resolved"), callee_def(t)):
+                    if d in fns:
+                        cs.add(d)
+                # <Self as Iterator>::next on a lexer type resolves to the local impl
+                inst = t["callee"].get("inst") or ""
+                for p2 in fns:
+                    if inst and inst == p2:
+                        cs.add(p2)
+        graph[path] = cs
+    color, cyc = {}, []
+
+    def dfs(u, stack):
+        color[u] = 1
+        stack.append(u)
+        for v in sorted(graph.get(u, ())):
+            if color.get(v) == 1:
+                cyc.append(stack[stack.index(v):] + [v])
+            elif v not in color:
+                dfs(v, stack)
+        stack.pop()
+        color[u] = 2
+    for u in sorted(graph):
+        if u not in color:
+            dfs(u, [])
+    ok = not cyc and len(fns) >= 25
+    rep.ob(rule, "lexer-call-graph-acyclic", ok,
+           "" if ok else ("the lexer recurses: %s -- one stack frame per skipped / scanned item, so a long input without any nesting overflows the stack" % " -> ".join(x.rsplit("::", 2)[-2] + "::" + x.rsplit("::", 1)[-1] for x in cyc[0]) if cyc else "only %d lexer functions found" % len(fns)),
+           fns[cyc[0][0]].loc() if cyc else None, how="%d functions, %d call edges, no cycle" % (len(fns), sum(len(v) for v in graph.values())))
